@@ -96,6 +96,7 @@ STORED_ALLOWED = {
     "Observable.__init__|evaluation_times": "a caller-given sequence of relative times kept by reference and only read (membership / iteration); documented as Sequence[float]",
     "State.__init__|_eigenstates": "labels (strings) of the basis, normally a tuple; only read",
     "QutipOperator.__init__|_eigenstates": "labels (strings) of the basis, normally a tuple; only read",
+    "Operator.from_operator_repr|_eigenstates": "labels (strings) of the basis, normally a tuple; only read (kept for serialisation)",
     "RemoteResults.__init__|_job_ids": "remote handle, not part of the claimed properties",
     "QutipEmulator.set_evaluation_times|_eval_times_instruction": "kept only for repr / later comparison; the evaluation times actually used are computed (copied) in the same call",
     "SimulationResults.__init__|_sim_times": "internal constructor: called by the emulator with a freshly built array",
@@ -323,7 +324,8 @@ def check(E: Engine, rep: Report, pid: str, rule: str = "NET", extra_modules: tu
         rebound = {x.id for x in ast.walk(f.node) if isinstance(x, ast.Name) and isinstance(x.ctx, ast.Store)}
         for st in ast.walk(f.node):
             tgt = val = None
-            if isinstance(st, ast.Assign) and len(st.targets) == 1 and isinstance(st.targets[0], ast.Attribute) and isinstance(st.targets[0].value, ast.Name) and st.targets[0].value.id == "self":
+            if isinstance(st, ast.Assign) and len(st.targets) == 1 and isinstance(st.targets[0], ast.Attribute) and isinstance(st.targets[0].value, ast.Name) and (st.targets[0].value.id == "self" or (f.kind == "classmethod" and st.targets[0].value.id not in anns)):
+                # (in an alternative constructor the object under construction is a local: `obj._x = x`)
                 tgt, val = st.targets[0].attr, st.value
             elif isinstance(st, ast.AnnAssign) and isinstance(st.target, ast.Attribute) and isinstance(st.target.value, ast.Name) and st.target.value.id == "self" and st.value is not None:
                 tgt, val = st.target.attr, st.value
